@@ -73,5 +73,7 @@ def groupByM [DecidableEq κ] (key : α → Nat → κ) (delay : Nat) : Machine 
   step := groupByStep key delay
   tick := groupTick
   finish := groupFinish
+  -- 381-386: sub.Unsubscribe(); notifyAll(Complete); reset the map
+  teardown := fun s => ({ s with groups := (groupCloseAll s.groups).1, mapped := false }, (groupCloseAll s.groups).2)
 
 end Ro.MultiB
